@@ -62,10 +62,8 @@ macro_rules! negotiation {
 		#[kani::stub(crate::utils::decompress_gzip, crate::verif_kani::codec::decompress_gzip)]
 		#[kani::stub(crate::utils::decompress_brotli, crate::verif_kani::codec::decompress_brotli)]
 		fn $name() {
-			let n: usize = kani::any();
-			kani::assume(n <= 2);
 			let bytes: [u8; 2] = kani::any();
-			let payload = Blob::from(bytes[..n].to_vec());
+			let payload = Blob::from(bytes.to_vec());
 			let mut mask = 0u8;
 			while mask < 8 {
 				let mut goal = 0u8;
@@ -75,7 +73,7 @@ macro_rules! negotiation {
 				}
 				mask += 1;
 			}
-			kani::cover!(n == 2);
+			kani::cover!(bytes[0] == 0x1f, "payload that looks like a codec tag");
 		}
 	};
 }
